@@ -758,6 +758,34 @@ pub fn run() {
     }
   }
 
+  // numeric literals written with a sign as end points of comparisons and intervals (FEEL's numeric literal has an optional
+  // sign; `< -1`, `[-10..10]` are everyday input entries): the text must parse, as an expression and as unary tests
+  let mut signed_endpoint_cases = 0u64;
+  {
+    let scope = parse_scope_of(&parse_names());
+    let forms: Vec<(&str, Vec<&str>)> = vec![
+      ("comparison", vec!["< -1", "<= -1", "> -1", ">= -1.5", "< -1, > 1", "not(< -1)"]),
+      ("interval", vec!["[-1..1]", "(-1..1)", "]-1..1[", "[-10..-5]", "[1..-1]", "(-1.5..2]", "[-1..1], [5..6]", "not([-1..1])"]),
+    ];
+    for (form, texts) in &forms {
+      for text in texts {
+        for (path, as_unary) in [("unary-tests", true), ("expression", false)] {
+          signed_endpoint_cases += 1;
+          let full = if as_unary { text.to_string() } else { format!("a in ({})", text) };
+          let res = if as_unary { parse_unary_tests(&scope, &full, false).map(|_| ()) } else { parse_expression(&scope, &full, false).map(|_| ()) };
+          if let Err(e) = res {
+            run.violation(
+              &format!("end-point:numeric-literal-with-a-sign:{}:{}", form, path),
+              &format!("`{}` does not parse ({}): a numeric literal with a sign is not accepted as the end point of a {}", full, e.to_string().chars().take(60).collect::<String>(), form),
+              json!({"engine":"c06","kind":"must-parse","text":full,"unary":as_unary}),
+            );
+          }
+        }
+      }
+    }
+  }
+  run.set("signed_endpoint_cases", json!(signed_endpoint_cases));
+
   let parses = counters.parses.load(Ordering::Relaxed);
   run.set("states", json!(trees.len() as u64 + lit_count + ut_count));
   run.set("transitions", json!(parses + lit_count + ut_count));
@@ -783,6 +811,13 @@ pub fn run() {
 pub fn replay_case(case: &serde_json::Value) -> String {
   let txt = case.get("text").and_then(|t| t.as_str()).unwrap_or("");
   let scope = parse_scope_of(&parse_names());
+  if case.get("kind").and_then(|k| k.as_str()) == Some("must-parse") {
+    let res = if case.get("unary").and_then(|u| u.as_bool()).unwrap_or(false) { parse_unary_tests(&scope, txt, false).map(|n| format!("{:?}", n)) } else { parse_expression(&scope, txt, false).map(|n| format!("{:?}", n)) };
+    return match res {
+      Ok(n) => format!("PASS `{}` parses to {}", txt, n),
+      Err(e) => format!("FAIL `{}` does not parse: {}", txt, e),
+    };
+  }
   let got = match parse_expression(&scope, txt, false) {
     Ok(n) => format!("{:?}", n),
     Err(e) => format!("error: {}", e),
